@@ -22,7 +22,8 @@ PROP = "C17"
 RULE = ("cases: plog models of every class (integer leaves, explicit and generated ids, DAG sharing), configurators with defaults, and their "
         "configured polyhedra; to_b64 -> from_b64. non-trivial: the model has defaults or integer leaves or depth>=2 (every configured polyhedron "
         "counts); distinct by recipe digest")
-BUDGET = {"quick": (8, 150, 60), "thorough": (16, 2500, 900)}
+BUDGET = {"quick": (12, 220, 90), "thorough": (16, 2200, 1200)}
+PYTEST = True     # thorough tier also runs the repository's own tests under these monitors
 MANDATORY = ["judged:proposition:structure", "judged:proposition:text", "judged:proposition:queries", "judged:polyhedron:structure",
              "judged:polyhedron:select", "contract:AtLeast.to_b64", "contract:ge_polyhedron_config.to_b64", "count:with-defaults", "count:xnor-or-imply", "count:derived-by-assume", "count:derived-by-reduce"]
 
@@ -85,7 +86,7 @@ def prop_post(pre, args, kwargs, result):
     self = args[0]
     if adapters.is_leaf(self) or adapters.validated(self, need_no_prefixed=False) is None:
         raise monitor.OutOfScope()
-    back = pg.from_b64(result)
+    back = ctx.call("from_b64", pg.from_b64, result)
     wit = {"recipe": (ctx.case or {}).get("recipe"), "model": adapters.model_text(self)}
     s1, s2 = digest.state(self), digest.state(back)
     ctx.check(s1 == s2 and type(back) is type(self) and extras(self) == extras(back), "proposition:structure",
@@ -113,7 +114,7 @@ def prop_post(pre, args, kwargs, result):
 def poly_post(pre, args, kwargs, result):
     ctx = monitor.CTX
     self = args[0]
-    back = pnd.ge_polyhedron_config.from_b64(result)
+    back = ctx.call("ge_polyhedron_config.from_b64", pnd.ge_polyhedron_config.from_b64, result)
     s1, s2 = digest.array_state(self), digest.array_state(back)
     ctx.check(s1 == s2 and type(back) is type(self), "polyhedron:structure",
               lambda: {"recipe": (ctx.case or {}).get("recipe"), "diff": digest.first_diff(s1, s2), "types": [type(self).__name__, type(back).__name__]})
